@@ -42,17 +42,18 @@ def config_pairs():
         dict(ctor="gen_wilson", ctor_kwargs={}, endpoint_kwargs=dict(deadend_end=True)),
     ]
     seeds = [(1, 2), (7, 13), (123, 5)]
+    A.insert(1, dict(ctor="gen_dfs", ctor_kwargs=dict(randomized_stack=True)))
     pairs = []
     k = 0
-    for i, a in enumerate(A):
-        for j, b in enumerate(B):
-            if (i + j) % 3 != 0 and not (i < 2 and j < 2):
-                continue
-            sa, sb = seeds[k % 3]
-            k += 1
-            pa = dict(dict(name="a", grid_n=4 + (i % 2), n_mazes=5, seed=sa, endpoint_kwargs={}, filters=[]), **copy.deepcopy(a))
-            pb = dict(dict(name="b", grid_n=4 + (j % 2), n_mazes=8, seed=sb, endpoint_kwargs={}, filters=copy.deepcopy(FILTERS_B)), **copy.deepcopy(b))
-            pairs.append(dict(a=pa, b=pb, seedmap={1: sa, 2: sb}))
+    # every generator / kwargs variant of A appears in the first len(A) pairs (the quick tier uses exactly those)
+    combos = [(i, i % len(B)) for i in range(len(A))] + [(i, j) for i in range(len(A)) for j in range(len(B)) if j != i % len(B)]
+    for i, j in combos:
+        a, b = A[i], B[j]
+        sa, sb = seeds[k % 3]
+        k += 1
+        pa = dict(dict(name="a", grid_n=4 + (i % 2), n_mazes=5, seed=sa, endpoint_kwargs={}, filters=[]), **copy.deepcopy(a))
+        pb = dict(dict(name="b", grid_n=4 + (j % 2), n_mazes=8, seed=sb, endpoint_kwargs={}, filters=copy.deepcopy(FILTERS_B)), **copy.deepcopy(b))
+        pairs.append(dict(a=pa, b=pb, seedmap={1: sa, 2: sb}))
     return pairs
 
 
@@ -154,7 +155,7 @@ def main(chk: lib.Check) -> int:
     chk.notes["histories_emitted"] = dict(two_step_exhaustive=len(h2), five_step_simulated=len(h5))
     pairs = config_pairs()
     if not thorough:
-        pairs = pairs[:6]
+        pairs = pairs[:8]
     probes = [dict(a="Generate", r="-", s=0, c="a"), dict(a="FromConfig", r="-", s=0, c="b"), dict(a="Generate", r="-", s=0, c="b"), dict(a="FromConfig", r="-", s=0, c="a")]
     jobs = []
     for k, h in enumerate(h2 + h5):
